@@ -26,7 +26,7 @@ CLASSES = {
 
 
 def plan(tier, seed):
-    k = 16 if tier == "quick" else 500
+    k = 32 if tier == "quick" else 500
     return [{"cls": c, "seed": seed, "shard": i, "n": 250} for c in CLASSES for i in range(k)]
 
 
